@@ -9,10 +9,11 @@ import (
 
 // Step is one step of an addressable path (the left-hand side of an assignment / a delete target).
 type Step struct {
-	Kind  string   // "key" | "idx" | "splat" | "multi" | "rdesc"
+	Kind  string   // "key" | "idx" | "splat" | "multi" | "midx" | "rdesc"
 	Key   string   // key
 	Idx   int      // idx
 	Keys  []string // multi: .["a","b"]
+	Idxs  []int    // midx: .[5, -1] (resolved one after the other: an index beyond the end pads first)
 	Brack bool     // print a key as ["k"] instead of .k
 }
 
@@ -53,6 +54,15 @@ func (p PathExpr) String() string {
 			q := make([]string, len(s.Keys))
 			for j, k := range s.Keys {
 				q[j] = ExprString(k)
+			}
+			sb.WriteString("[" + strings.Join(q, ", ") + "]")
+		case "midx":
+			if i == 0 {
+				sb.WriteString(".")
+			}
+			q := make([]string, len(s.Idxs))
+			for j, k := range s.Idxs {
+				q[j] = strconv.Itoa(k)
 			}
 			sb.WriteString("[" + strings.Join(q, ", ") + "]")
 		case "rdesc":
@@ -138,6 +148,23 @@ func ResolveFull(doc *V, p PathExpr, create bool) ([]Target, [][]any, bool, erro
 					for _, k := range s.Keys {
 						next = append(next, cur{mk(&anyCreate), ext(c.path, k), true})
 					}
+				case "midx":
+					if !create {
+						continue
+					}
+					n := 0
+					for _, i := range s.Idxs {
+						if i < 0 {
+							i += n
+							if i < 0 {
+								return nil, nil, false, evalErr("index out of range")
+							}
+						}
+						if i >= n {
+							n = i + 1
+						}
+						next = append(next, cur{mk(&anyCreate), ext(c.path, i), true})
+					}
 				case "splat":
 					if create {
 						// an existing null, or a location the previous steps are about to create: it becomes []
@@ -191,6 +218,28 @@ func ResolveFull(doc *V, p PathExpr, create bool) ([]Target, [][]any, bool, erro
 					next = append(next, cur{mk(&anyCreate), ext(c.path, i), true})
 				} else {
 					// reading beyond the end yields null but addresses nothing that exists
+				}
+			case "midx":
+				if v.K != Seq {
+					return nil, nil, false, ErrIncompatible
+				}
+				n := len(v.A)
+				for _, i := range s.Idxs {
+					if i < 0 {
+						i += n // the length as it is after the padding done for the indices before this one
+						if i < 0 {
+							return nil, nil, false, evalErr("index out of range")
+						}
+					}
+					switch {
+					case i < len(v.A):
+						next = append(next, cur{v.A[i], ext(c.path, i), false})
+					case create:
+						if i >= n {
+							n = i + 1
+						}
+						next = append(next, cur{mk(&anyCreate), ext(c.path, i), true})
+					}
 				}
 			case "splat":
 				switch v.K {
